@@ -519,6 +519,7 @@ fn main() {
                         rep.add("obs_late_clients_before_stop", seen.late_clients);
                         rep.add("obs_worker_stall_scenarios", seen.stall_scenarios);
                         rep.add("obs_stops_while_worker_mid_poll", seen.mid_poll_scenarios);
+                        rep.add("signal_runs_repeated_because_signal_preceded_handler_installation", seen.signal_before_handlers);
                         rep.add("obs_sigterm_runs", seen.signal_runs_term);
                         rep.add("obs_sigint_sigquit_runs", seen.signal_runs_forced);
                         rep.max("max_graceful_resolution_ms", seen.max_graceful_ms);
